@@ -63,6 +63,7 @@ type inliner struct {
 	need   map[string]map[string]string // file -> import path -> local name
 	stack  []types.Object
 	locals map[string]bool // names declared in the current root function
+	gotos  map[string]int  // goto statements of the current root function, by label
 	spec   Spec
 	rel    map[types.Object]int // 0 unknown, 1 relevant, 2 not
 }
@@ -115,7 +116,11 @@ func Sources(p *core.Program, specs []Spec) map[string][]byte {
 					continue
 				}
 				in.locals = map[string]bool{}
+				in.gotos = map[string]int{}
 				ast.Inspect(fd, func(n ast.Node) bool {
+					if br, ok := n.(*ast.BranchStmt); ok && br.Tok == token.GOTO && br.Label != nil {
+						in.gotos[br.Label.Name]++
+					}
 					if id, ok := n.(*ast.Ident); ok && in.info.Defs[id] != nil {
 						in.locals[id.Name] = true
 					}
@@ -202,6 +207,8 @@ type retSpec struct {
 	used    *bool
 }
 
+var plainOperand = regexp.MustCompile(`^[A-Za-z_][A-Za-z0-9_]*(\.[A-Za-z_][A-Za-z0-9_]*)*$`)
+
 func (in *inliner) expand(file string, n ast.Node, depth int, sub subst) string {
 	return in.expandR(file, n, depth, sub, nil)
 }
@@ -220,6 +227,16 @@ func (in *inliner) expandR(file string, n ast.Node, depth int, sub subst, rets *
 				if x != m {
 					walk(s, true)
 					return false
+				}
+			case *ast.StarExpr: // *p with the parameter p standing for &x: x
+				if id, isID := ast.Unparen(s.X).(*ast.Ident); isID && sub != nil {
+					if t, ok := sub[in.info.Uses[id]]; ok {
+						t = strings.TrimSuffix(strings.TrimPrefix(t, "("), ")")
+						if strings.HasPrefix(t, "&") && plainOperand.MatchString(t[1:]) {
+							eds = append(eds, edit{in.off(s.Pos()), in.off(s.End()), t[1:]})
+							return false
+						}
+					}
 				}
 			case *ast.Ident:
 				if t, ok := sub[in.info.Uses[s]]; ok && sub != nil {
@@ -283,6 +300,8 @@ type callee struct {
 	recvX ast.Expr   // receiver expression at the call
 	obj   types.Object
 	isLit bool
+	// a literal called where it is written: no object stands for it, it is always expanded
+	isIIFE bool
 }
 
 func (in *inliner) resolve(call *ast.CallExpr) *callee {
@@ -345,6 +364,8 @@ func (in *inliner) resolve0(call *ast.CallExpr) *callee {
 				c = &callee{typ: lit.Type, body: lit.Body, obj: o, isLit: true}
 			}
 		}
+	case *ast.FuncLit: // a function literal invoked in place: func(out *bool) {...}(&x)
+		c = &callee{typ: f.Type, body: f.Body, isIIFE: true}
 	case *ast.SelectorExpr:
 		sel, ok := in.info.Selections[f]
 		if ok && sel.Kind() == types.MethodVal {
@@ -361,7 +382,7 @@ func (in *inliner) resolve0(call *ast.CallExpr) *callee {
 		return nil
 	}
 	for _, s := range in.stack {
-		if s == c.obj {
+		if s == c.obj && !c.isIIFE {
 			return nil
 		}
 	}
@@ -427,6 +448,9 @@ func has(list []string, s string) bool {
 // relevant: see Spec.Keep.
 func (in *inliner) relevant(c *callee, depth int) bool {
 	if len(in.spec.Keep)+len(in.spec.KeepTypes)+len(in.spec.KeepFields) == 0 {
+		return true
+	}
+	if c.isIIFE {
 		return true
 	}
 	if r := in.rel[c.obj]; r != 0 {
